@@ -164,6 +164,36 @@ theorem emu_refines_term_long {t : Term.T} {e : Emu} {rows cols : Nat} (f : Nat)
   exact emu_refines_step_long _ tok
     ⟨f, pm, rfl, hf, h84, h', fun ps hps => absurd hps (tokOf_one_not_sgr f _ tok hf h' ps), fun g w hc => by cases hc⟩ s2
 
+/-- **CUP / HVP / DECSTBM with more than two parameters** (round 3; F106d repaired): whatever follows the second
+    parameter (further parameters, with or without sub-parameters) is ignored, as a VT / xterm does: the emulator
+    step succeeds and refines the reference's function of the first two parameters, for every related pair of
+    states. Before the repair the emulator ignored the whole sequence (`Witness/F106d.lean`). -/
+theorem emu_refines_term_two {t : Term.T} {e : Emu} {rows cols : Nat} (f : Nat) (pm : List Param) (tok : Term.Tok)
+    (hf : f ∈ twoPs) (hl : pm.length > 2)
+    (h : tokOfX (.csi [f] pm) = some tok) (s2 : Sim2 t e rows cols) :
+    ∃ r, emuStep e (.csi [f] pm) = .ok r ∧ Refines2 (Term.step t tok) r.1 rows cols := by
+  have hno : ¬ (f ∈ onePs ∧ (f = 84 → pm.length ≠ 5)) := by
+    simp only [twoPs, List.mem_cons, List.not_mem_nil, or_false] at hf
+    rcases hf with rfl | rfl | rfl <;> (intro hc; exact absurd hc.1 (by decide))
+  have h' : tokOf (.csi [f] (pm.take 2)) = some tok := by
+    unfold tokOfX at h
+    split at h
+    · rename_i heq; simp at heq
+    · rename_i heq; simp at heq
+    · rename_i heq; simp at heq
+    · rename_i f' pm' heq
+      simp only [EOp.csi.injEq, List.cons.injEq, and_true] at heq
+      obtain ⟨rfl, rfl⟩ := heq
+      rw [if_neg hno, if_pos ⟨hf, hl⟩] at h
+      exact h
+    · rename_i hne; exact absurd rfl (hne f pm)
+  exact emu_refines_step_two f pm tok hf hl h' s2
+
+/-- Non-vacuity: `CSI 2;3;9 H` is CUP 2 3, `CSI 1;2;7:1;0 r` is DECSTBM 1 2; a sub-parameter in one of the first two is outside. -/
+example : tokOfX (.csi [72] [(2, []), (3, []), (9, [])]) = some (.cup 2 3) ∧
+    tokOfX (.csi [114] [(1, []), (2, []), (7, [1]), (0, [])]) = some (.decstbm 1 2) ∧
+    tokOfX (.csi [72] [(2, [4]), (3, []), (9, [])]) = none := by decide
+
 /-- **Cursor visibility** (`CSI ? 25 h` / `CSI ? 25 l`): for states related by `SimC` (= `Sim2` and the
     cursor's visibility and shape agree) the step succeeds, is what the reference's `showCursor` does,
     and the relation is kept. -/
